@@ -92,7 +92,7 @@ def make_design(rng: random.Random, i: int) -> dict:
             for t in ts:
                 if t is not g and rng.random() < 0.6:
                     t['sgrna'] = []
-    if i % 4 == 1 and d.get('gtf') and len(ts) >= 2:
+    if i % 2 == 1 and d.get('gtf') and len(ts) >= 2:
         # background variants only inside a targeton that reaches outside the span of the coding sequence
         ex = gen.exons_of(d)
         lo, hi = ex[0][0], ex[-1][1]
@@ -110,10 +110,64 @@ def make_design(rng: random.Random, i: int) -> dict:
             else:
                 recs.append({'pos': p, 'ref': U[p - 1:p + 2], 'alts': [U[p - 1]], 'id': 'bgx'})
             pam_pos = {x['pos'] for x in d.get('pam') or []}
+            # ... and a second variant right at a boundary of another targeton (inside it, within the length of the first one):
+            # whether it is listed for that targeton must not depend on the shift the far variant causes
+            others = [x for x in ts if x is not t]
+            if others and rng.random() < 0.8:
+                o = rng.choice(others)
+                k = abs(len(recs[0]['alts'][0]) - len(recs[0]['ref'])) or 1
+                # within the shift of the far variant from the boundary it would push the targeton range over
+                q = rng.choice([o['ref_start'] + rng.randint(0, k - 1 if k > 1 else 1), o['ref_end'] - rng.randint(0, k - 1 if k > 1 else 1)])
+                exq = gen.exons_of(d)
+                if abs(q - p) > 8 and q not in pam_pos and not gen.exon_at(exq, q) and 3 < q < len(U) - 3 \
+                        and not any(q in (x['r2_start'], x['r2_end']) for x in ts):
+                    recs.append({'pos': q, 'ref': U[q - 1], 'alts': [rng.choice([c for c in 'ACGT' if c != U[q - 1]])], 'id': 'bgy'})
+                    recs.sort(key=lambda r: r['pos'])
+                    d['c13_boundary_bg'] = True
             if not (set(range(p - 1, p + 4)) & pam_pos):
                 d['bg'] = recs
                 d.pop('mask', None)
                 d['opts']['no_op'] = True
+    return d
+
+
+def far_context_design(rng: random.Random) -> dict:
+    """A targeton O around the coding sequence and a targeton F far upstream (lower coordinates) of everything else, with a
+    coordinate-shifting background variant inside F and a substitution within that shift of a boundary of O: alone, the context of
+    O does not reach F; together it does."""
+    n = rng.randint(260, 340)
+    ref = gen.rand_dna(rng, n)
+    strand = rng.choice('+-')
+    cs = rng.randint(120, 140)
+    ce = cs + 3 * rng.randint(8, 16) - 1
+    d = {'mode': 'sge', 'contig': 'chr1', 'strand': strand, 'species': 'sp', 'assembly': 'asm', 'ref': ref, 'extra_contigs': {},
+         'gtf': {'gene_id': 'G1', 'transcript_id': 'T1', 'cds': [[cs, ce, 0]], 'utr': []}}
+    lo_pad = 3 if strand == '-' else 0          # the stop codon is appended on the 3' side
+    hi_pad = 3 if strand == '+' else 0
+    O = {'ref_start': cs - lo_pad - rng.randint(8, 20), 'ref_end': ce + hi_pad + rng.randint(8, 20), 'r2_start': cs + 3, 'r2_end': cs + 3 * rng.randint(2, 5) - 1,
+         'ext': [0, 0], 'action': ['', rng.choice(['snv', 'snv, ala', '1del, snvre']), ''], 'sgrna': []}
+    fs = rng.randint(15, 40)
+    fe = fs + rng.randint(25, 50)
+    F = {'ref_start': fs, 'ref_end': min(fe, O['ref_start'] - 12), 'r2_start': fs + 5, 'r2_end': fs + 12, 'ext': [2, 2], 'action': ['snv', '1del', 'snv'], 'sgrna': []}
+    U = ref
+    p = rng.randint(F['r2_end'] + 4, F['ref_end'] - 6) if F['ref_end'] - 6 > F['r2_end'] + 4 else F['r2_end'] + 4
+    ins = rng.random() < 0.5
+    k = rng.randint(1, 4)
+    if ins:
+        bg1 = {'pos': p, 'ref': U[p - 1], 'alts': [U[p - 1] + gen.rand_dna(rng, k)], 'id': 'bgf'}
+        q = O['ref_start'] + rng.randint(0, k - 1)          # the range of O is pushed right by k in the background coordinates
+    else:
+        bg1 = {'pos': p, 'ref': U[p - 1:p + k], 'alts': [U[p - 1]], 'id': 'bgf'}
+        q = O['ref_end'] - rng.randint(0, k - 1)            # ... or pulled left
+    bg2 = {'pos': q, 'ref': U[q - 1], 'alts': [rng.choice([c for c in 'ACGT' if c != U[q - 1]])], 'id': 'bgo'}
+    d['bg'] = sorted([bg1, bg2], key=lambda r: r['pos'])
+    d['targetons'] = [O, F] if rng.random() < 0.5 else [F, O]
+    if rng.random() < 0.5:
+        e = rng.randint(O['r2_start'], O['r2_end'])
+        d['pam'] = [{'pos': e, 'ref': U[e - 1], 'alt': rng.choice([c for c in 'ACGT' if c != U[e - 1]]), 'sgrna': 'sg1'}]
+        O['sgrna'] = ['sg1']
+    d['opts'] = {'revcomp': rng.random() < 0.5, 'no_op': rng.random() < 0.7, 'force_ns': True}
+    d['c13_boundary_bg'] = True
     return d
 
 
@@ -151,7 +205,7 @@ def first_diff(a: dict, b: dict) -> str:
 def explore(ctx: Ctx):
     rng = ctx.rng
     n = ctx.n(100, 600)
-    designs = [make_design(rng, i) for i in range(n)]
+    designs = [make_design(rng, i) if i % 5 else far_context_design(rng) for i in range(n)]
     jobs, index = [], []
     for i, d in enumerate(designs):
         k = len(d['targetons'])
@@ -168,6 +222,8 @@ def explore(ctx: Ctx):
     for i, runs in by.items():
         d = designs[i]
         ctx.count('designs_bg' if d.get('bg') else 'designs_nobg')
+        if d.get('c13_boundary_bg'):
+            ctx.count('designs_far_indel_plus_boundary_variant')
         ctx.count(f"targetons_{len(d['targetons'])}")
         alone = {o[0]: r for kind, o, r in runs if kind == 'alone'}
         for kind, o, r in runs:
